@@ -70,7 +70,8 @@ Proof. intros fuel E root g H p preds m n body H1 H2. exact (string_alias fuel E
 (* ---- what a deferred node denotes ---------------------------------------------------------- *)
 (* evalref: refs.evaluate = the interpreter's eval of the reference text in the module's namespace; its law:
    a module-level name evaluates to the object bound to it.  A member deferred as itself denotes itself;
-   a reference denotes the member it stands for when that member is a module-level named object. *)
+   a reference denotes the member it stands for when that member is a named object (a class at module level
+   or nested in classes, a leaf class, a NewType, an alias). *)
 Theorem C09_denotes : forall (evalref : str -> option str -> option gty) E,
   (forall c m nm, named E c = Some (m, nm) -> denotes_guard E c = true -> evalref nm (Some m) = Some c) ->
   forall n var c, represents E n var c -> ncyc n = true ->
@@ -86,30 +87,32 @@ Proof.
     + unfold denotes_guard in Hg. rewrite Hnm in Hg. discriminate.
 Qed.
 
-(* The full statement (without the guard) is false of the faithful model: a class nested in a class is
-   referred to by the LAST part of its qualified name in a module named after the FIRST part.  Two
-   different classes Outer.Inner (in modules vm_a, vm_b) get the same reference: no evaluator can be right. *)
+(* The guard leaves out only names that refs.forwardref itself rewrites: a name inside which the module's own
+   name followed by a dot occurs again (forwardref strips it), and dotted names of objects that are not
+   classes.  The unguarded statement is kept as a definition, not claimed. *)
 Definition C09_denotes_full : Prop :=
   forall (evalref : str -> option str -> option gty) E,
     (forall c m nm, named E c = Some (m, nm) -> evalref nm (Some m) = Some c) ->
     forall n var c a mo, represents E n var c -> ncyc n = true -> ntype n = GRef a mo -> evalref a mo = Some c.
 
+(* Classes nested in classes are inside the guard: two different classes Outer.Inner (modules vm_a, vm_b)
+   are referred to by their qualified name, each in its own module. *)
 Definition nested_env : env := env_of
   [ (0, {| cmodule := "vm_a"; cqual := "Outer.Inner"; cfields := [("me", GUnion UOptional [GClass 0; GNone])] |});
     (1, {| cmodule := "vm_b"; cqual := "Outer.Inner"; cfields := [("me", GUnion UOptional [GClass 1; GNone])] |}) ].
 
-Theorem C09_refuted_nested : exists E g0 g1 n0 n1,
-  type_graph 20 E (GClass 0) = Ok g0 /\ type_graph 20 E (GClass 1) = Ok g1 /\
+Example C09_denotes_nested : exists g0 g1 n0 n1,
+  type_graph 20 nested_env (GClass 0) = Ok g0 /\ type_graph 20 nested_env (GClass 1) = Ok g1 /\
   In n0 (adj_nodes g0) /\ In n1 (adj_nodes g1) /\ ncyc n0 = true /\ ncyc n1 = true /\
   nfor n0 = GClass 0 /\ nfor n1 = GClass 1 /\
-  ntype n0 = GRef "Inner" (Some "Outer") /\ ntype n1 = GRef "Inner" (Some "Outer").
+  denotes_guard nested_env (GClass 0) = true /\ denotes_guard nested_env (GClass 1) = true /\
+  ntype n0 = GRef "Outer.Inner" (Some "vm_a") /\ ntype n1 = GRef "Outer.Inner" (Some "vm_b").
 Proof.
-  exists nested_env.
   destruct (type_graph 20 nested_env (GClass 0)) as [g0| |] eqn:H0; [|vm_compute in H0; discriminate|vm_compute in H0; discriminate].
   destruct (type_graph 20 nested_env (GClass 1)) as [g1| |] eqn:H1; [|vm_compute in H1; discriminate|vm_compute in H1; discriminate].
   exists g0, g1.
-  exists {| ntype := GRef "Inner" (Some "Outer"); nunw := GRef "Inner" (Some "Outer"); nvar := None; ncyc := true; nfor := GClass 0 |}.
-  exists {| ntype := GRef "Inner" (Some "Outer"); nunw := GRef "Inner" (Some "Outer"); nvar := None; ncyc := true; nfor := GClass 1 |}.
+  exists {| ntype := GRef "Outer.Inner" (Some "vm_a"); nunw := GRef "Outer.Inner" (Some "vm_a"); nvar := None; ncyc := true; nfor := GClass 0 |}.
+  exists {| ntype := GRef "Outer.Inner" (Some "vm_b"); nunw := GRef "Outer.Inner" (Some "vm_b"); nvar := None; ncyc := true; nfor := GClass 1 |}.
   vm_compute in H0. vm_compute in H1. inversion H0; inversion H1; subst. cbn. repeat split; auto 10.
 Qed.
 
@@ -171,5 +174,4 @@ Print Assumptions C09_order.
 Print Assumptions C09_flags.
 Print Assumptions C09_string_alias.
 Print Assumptions C09_denotes.
-Print Assumptions C09_refuted_nested.
 Print Assumptions C09_input_forms.
